@@ -226,7 +226,8 @@ pub fn gen_model(rng: &mut Rng, k: &ModelKnobs) -> MModel {
     let n_char = if rng.chance(1, 10) { 0 } else { rng.range(1, k.max_entries) };
     let mut seen = std::collections::BTreeSet::new();
     for _ in 0..n_char {
-        let maxn = (2 * cwu.max(1)).min(4);
+        // usually short; sometimes up to the maximal length for the window
+        let maxn = if rng.chance(1, 6) { (2 * cwu.max(1)).min(8) } else { (2 * cwu.max(1)).min(4) };
         let n = rng.range(1, maxn);
         let s = pat(rng, n, k);
         if !seen.insert(s.clone()) {
@@ -260,7 +261,7 @@ pub fn gen_model(rng: &mut Rng, k: &ModelKnobs) -> MModel {
     let n_type = if rng.chance(1, 10) { 0 } else { rng.range(1, k.max_entries) };
     let mut seen = std::collections::BTreeSet::new();
     for _ in 0..n_type {
-        let maxn = (2 * twu.max(1)).min(4);
+        let maxn = if rng.chance(1, 6) { (2 * twu.max(1)).min(8) } else { (2 * twu.max(1)).min(4) };
         let n = rng.range(1, maxn);
         let g: Vec<u8> = (0..n).map(|_| rng.range(1, 6) as u8).collect();
         if !seen.insert(g.clone()) {
